@@ -84,6 +84,26 @@ def r12_2(run, model):
     loops = [l for l in S.find(f.body, "While")]
     ok = any(S.norm_ws(run.facts.text(FILE, l["cond"]["sp"])) == "!p.eof()" for l in loops)
     run.ob("R12.2", "file()|loops to the real end of input", ok, site(FILE, f.node["sp"]), "top-level loop condition is `!p.eof()` (raw end of input, not the fuel-aware peek)" if ok else "top-level loop may stop early")
+    # the end-of-input test must be the real one: once fuel runs out peek()/nth() answer Eof for every position, so an eof() that goes
+    # through them ends file() (and every grammar loop) with input left over
+    meths = {g.name: g for g in model.fns(PARSER) if g.body is not None and g.impl == "Parser"}
+    fuel = {n_ for n_, g in meths.items() if any(x["k"] == "Field" and x.get("member") == "fuel" for x in S.walk(g.body))}
+    reads = {n_ for n_ in fuel if n_ not in ("advance", "new")}
+    changed = True
+    while changed:
+        changed = False
+        for n_, g in meths.items():
+            if n_ in reads or n_ in ("advance", "new"):
+                continue
+            if any(c["k"] == "MethodCall" and c["method"] in reads and S.is_path(c["recv"], "self") for c in S.walk(g.body)):
+                reads.add(n_)
+                changed = True
+    run.floor("positive control: fuel-limited Parser methods (peek, nth, at, …)", len(reads), 4)
+    if "eof" not in meths:
+        raise AnalysisIncomplete("Parser::eof not found")
+    run.ob("R12.2", "Parser::eof|independent of the stuck-parser fuel", "eof" not in reads, site(PARSER, meths["eof"].node["sp"]),
+           f"fuel-limited methods: {sorted(reads)}",
+           witness="~130 stacked prefix operators exhaust the fuel inside one expression: eof() answers true, file() stops and the remaining tokens never enter the tree")
     closes = S.norm_ws(run.facts.text(FILE, f.body["sp"]))
     run.ob("R12.2", "file()|FILE node closed", "MySyntaxKind::FILE" in closes and "p.close(" in closes, site(FILE, f.node["sp"]), "file() opens and closes a FILE node")
 
@@ -150,6 +170,9 @@ def run(run, model):
     run.try_rule(r12_2, model)
     run.try_rule(r12_4, model)
     run.try_rule(r12_5, model, mir)
+    from rules import c04
+    run.rule("R12.6", "parsing terminates: every grammar loop makes progress (shared with C04 R04.1, abstract interpretation of the parser)")
+    run.try_rule(c04.r04_1, model)
     # R12.3: no entropy in lexer / parser
     run.rule("R12.3", "lexing and parsing are deterministic: no hash-ordered iteration and no entropy source in the lexer/parser/cst/ast crates")
     bad = [c for c in mir.calls if c["file"].startswith(("crates/lexer/src", "crates/parser/src")) and re.search(r"std::collections::Hash(Map|Set)|RandomState|SystemTime|Instant::now|std::env::", c["callee"])]
